@@ -188,17 +188,18 @@ def prove(prop, cfg, log, tier="quick"):
     """Full .vo build of the property's cone, then the property file itself with its
     Print Assumptions output captured.  Returns dict(obligations, discharged, failed, axioms)."""
     res = {"obligations": 0, "discharged": 0, "failed": [], "axioms": {}, "theorems": []}
-    pfile = os.path.join(COQ, "Properties", prop + ".v")
-    src = open(pfile).read()
-    src_nc = strip_comments(src)
-    theorems = re.findall(r"^\s*Theorem\s+(\w+)", src_nc, flags=re.M)
-    printed = re.findall(r"^\s*Print Assumptions\s+(\w+)\s*\.", src_nc, flags=re.M)
+    pfiles = [prop] + list(cfg.get("extra_property_files", []))
+    theorems, printed = [], []
+    for pf in pfiles:
+        src_nc = strip_comments(open(os.path.join(COQ, "Properties", pf + ".v")).read())
+        theorems += re.findall(r"^\s*Theorem\s+([\w']+)", src_nc, flags=re.M)
+        printed += re.findall(r"^\s*Print Assumptions\s+([\w']+)\s*\.", src_nc, flags=re.M)
     res["theorems"] = theorems
     res["obligations"] = len(theorems)
     with Lock("coq.lock"):
         ensure_makefile()
         t0 = time.time()
-        rc, out = sh("timeout 3000 make -f Makefile.coq -j16 Properties/%s.vo 2>&1" % prop, cwd=COQ)
+        rc, out = sh("timeout 3000 make -f Makefile.coq -j16 %s 2>&1" % " ".join("Properties/%s.vo" % pf for pf in pfiles), cwd=COQ)
         log.write("== make Properties/%s.vo rc=%d (%.1fs)\n%s\n" % (prop, rc, time.time() - t0, out[-20000:]))
         if rc != 0:
             m = re.findall(r'File "\./([^"]+)", line (\d+)', out)
@@ -207,12 +208,15 @@ def prove(prop, cfg, log, tier="quick"):
             res["failed"].append({"where": where, "log": err})
             return res
         # the property file once more, alone, to capture its Print Assumptions output
-        rc, out = sh("timeout 1200 coqc -Q . JWT -o %s Properties/%s.v 2>&1" %
-                     (os.path.join(WORK, prop, prop + ".vo"), prop), cwd=COQ)
-        log.write("== coqc Properties/%s.v rc=%d\n%s\n" % (prop, rc, out[-20000:]))
-    if rc != 0:
-        res["failed"].append({"where": "Properties/%s.v" % prop, "log": out.strip().splitlines()[-12:]})
-        return res
+        out = ""
+        for pf in pfiles:
+            rc, o1 = sh("timeout 1200 coqc -Q . JWT -o %s Properties/%s.v 2>&1" %
+                        (os.path.join(WORK, prop, pf + ".vo"), pf), cwd=COQ)
+            log.write("== coqc Properties/%s.v rc=%d\n%s\n" % (pf, rc, o1[-20000:]))
+            if rc != 0:
+                res["failed"].append({"where": "Properties/%s.v" % pf, "log": o1.strip().splitlines()[-12:]})
+                return res
+            out += o1
     blocks = re.split(r"(?m)^(?=Closed under the global context|Axioms:)", out)
     blocks = [b for b in blocks if b.startswith("Closed under") or b.startswith("Axioms:")]
     for i, name in enumerate(printed):
@@ -232,7 +236,7 @@ def prove(prop, cfg, log, tier="quick"):
         # independent re-check of the compiled cone (kernel re-typechecks every .vo the property depends on)
         t0 = time.time()
         with Lock("coq.lock"):
-            rc, out = sh("timeout 6000 coqchk -silent -o -Q . JWT JWT.Properties.%s 2>&1" % prop, cwd=COQ)
+            rc, out = sh("timeout 6000 coqchk -silent -o -Q . JWT %s 2>&1" % " ".join("JWT.Properties." + pf for pf in pfiles), cwd=COQ)
         log.write("== coqchk JWT.Properties.%s rc=%d (%.1fs)\n%s\n" % (prop, rc, time.time() - t0, out[-6000:]))
         m = re.search(r"\* Axioms:\s*(.*?)\n\s*\n\s*\* Constants/Inductives relying on type-in-type:\s*(.*?)\n\s*\n\s*\* Constants/Inductives relying on unsafe \(co\)fixpoints:\s*(.*?)\n\s*\n\s*\* Inductives whose positivity is assumed:\s*(.*?)\n", out, flags=re.S)
         res["coqchk"] = {"rc": rc, "wall_s": round(time.time() - t0, 1),
